@@ -12,7 +12,8 @@ refuses `!filepath.IsLocal(name)` before it joins" (`Obligations.lean` ties it t
 the working tree).  The theorems are about `g = true`; for `g = false` (the code
 before the repair) the negation is kept below with a concrete witness.
 -/
-import PubModel.C17.Lemmas
+import PubModel.C17.LemmasRT3
+import PubModel.C17.LemmasFS3
 import PubModel.C17.Obligations
 
 namespace PubModel.C17
@@ -107,6 +108,103 @@ theorem unguarded_escapes :
   simp at hr
   exact absurd hr.1 (by decide)
 
+/-- **Extraction writes only beneath the destination** (file-system level, for every
+    archive, every pre-existing file system, also when the extraction stops with an
+    error, with and without `clear`): a path whose state differs afterwards is at or
+    below the cleaned destination, or is an ancestor of it that did not exist and was
+    created as a directory by `MkdirAll`.  Nothing else is created, changed or removed. -/
+theorem unzip_writes_contained (dir : Bytes) (clear : Bool) (fs : FS) (es : List ZEntry) :
+    ChgUnder (clean dir).segs fs (unzipDir true dir clear fs es).1 := by
+  unfold unzipDir
+  have hrun := fun fs0 => runEntries_chg (clean dir).segs (unzipEntry true dir)
+    (fun fs e fs' h => unzipEntry_chg dir fs fs' e h) es fs0 0
+  cases clear with
+  | false => simpa using hrun fs
+  | true =>
+    simp only [if_true]
+    exact chg_trans _ _ _ _ (removeAll_chg _ fs) (hrun _)
+
+/-- **Same for `writeTarToDir`.** -/
+theorem untar_writes_contained (dir : Bytes) (fs : FS) (es : List TEntry) :
+    ChgUnder (clean dir).segs fs (untarDir true dir fs es).1 := by
+  unfold untarDir
+  exact runEntries_chg (clean dir).segs (untarEntry true dir)
+    (fun fs e fs' h => untarEntry_chg dir fs fs' e h) es fs 0
+
+/-- in particular a sibling of the destination is never touched -/
+theorem unzip_sibling_untouched (dir : Bytes) (clear : Bool) (fs : FS) (es : List ZEntry) (q : List Seg)
+    (h1 : ¬ (clean dir).segs <+: q) (h2 : ¬ q <+: (clean dir).segs) :
+    stat (unzipDir true dir clear fs es).1 q = stat fs q := by
+  apply Classical.byContradiction
+  intro hne
+  rcases unzip_writes_contained dir clear fs es q hne with h | ⟨h, _, _⟩
+  · exact h1 h
+  · exact h2 h
+
+/-- **`TarZipFile` names**: a hostile zip entry name is refused; an accepted one is
+    re-encoded as a tar header name that is the cleaned target directory followed by
+    real path elements. -/
+theorem tarzip_contained (dir name n : Bytes) (hd : dir ≠ []) (h : tarZipName true dir name = some n) :
+    ∃ p, n = render p ∧ Under (clean dir) p := by
+  unfold tarZipName at h
+  by_cases hl : isLocal name = true
+  · simp only [hl, Bool.not_true, Bool.and_false, Bool.false_eq_true, if_false, hd, Option.some.injEq] at h
+    refine ⟨joinC dir name, ?_, unzip_contained dir name _ (by simp [unzipTarget, hl])⟩
+    rw [← h]
+    simp [join, hd]
+  · simp [hl] at h
+
+theorem tarzip_hostile_refused (dir name : Bytes) (h : isAbs name = true ∨ escapes name = true) :
+    tarZipName true dir name = none := by
+  have := (hostile_refused dir name h).1
+  unfold unzipTarget at this
+  unfold tarZipName
+  by_cases hl : isLocal name = true
+  · simp [hl] at this
+  · simp [hl]
+
+/-- **Round trip**: extracting (with `clear`) the archive `ZipDir` writes for a tree
+    reproduces the tree below the destination: same relative paths, in the same
+    order, same contents, same permission bits (umask 0).  `treeOK t` says that `t`
+    is listed as `filepath.Walk` lists a tree (root directory first, every item after
+    the directory containing it, no path twice, real path elements); the file system
+    may hold anything, provided the proper ancestors of the destination are
+    directories and the destination is not the root. -/
+theorem zip_roundtrip (dir : Bytes) (fs : FS) (t : Tree)
+    (hD : (clean dir).segs ≠ [])
+    (hanc : ∀ pre, pre <+: (clean dir).segs → pre ≠ (clean dir).segs → isDirAt fs pre = true)
+    (ht : treeOK t = true) :
+    (unzipDir true dir true fs (zipDir t)).2 = none ∧
+    subtree (unzipDir true dir true fs (zipDir t)).1 (clean dir).segs = t := by
+  have hb := base_of_removeAll (clean dir).segs fs hD hanc
+  have hrun := runEntries_zip dir (removeAll fs (clean dir).segs) hb t [] 0 ht
+  simp only [shift, List.map_nil, List.append_nil, List.nil_append] at hrun
+  simp only [unzipDir, if_true, hrun]
+  exact ⟨trivial, subtree_shift _ _ hb.empty t⟩
+
+/-- **Round trip of `ZipFile`**: the one-entry archive extracts to the file, with its
+    name, mode and content, below a destination created with mode 0700. -/
+theorem zipfile_roundtrip (dir : Bytes) (fs : FS) (base : Seg) (perm : Nat) (c : Bytes)
+    (hp : Plain base) (hD : (clean dir).segs ≠ [])
+    (hanc : ∀ pre, pre <+: (clean dir).segs → pre ≠ (clean dir).segs → isDirAt fs pre = true) :
+    (unzipDir true dir true fs (zipFile base perm c)).2 = none ∧
+    subtree (unzipDir true dir true fs (zipFile base perm c)).1 (clean dir).segs =
+      [([], .dir 448), ([base], .file perm c)] := by
+  have hb := base_of_removeAll (clean dir).segs fs hD hanc
+  have hstep := unzip_zipFile dir _ hb base perm c hp
+  simp only [unzipDir, if_true, zipFile, runEntries, hstep]
+  exact ⟨trivial, subtree_shift _ _ hb.empty _⟩
+
+/-- **No entry of a `ZipDir` archive is refused, none lands outside**: every
+    destination is the cleaned destination directory followed by the item's path. -/
+theorem zip_entries_accepted (dir : Bytes) (t₁ : Tree) (x : List Seg × Node) (hx : entryOK t₁ x = true) :
+    ∃ p, unzipTarget true dir (zipEntryOf x).name = some p ∧ p.segs = (clean dir).segs ++ x.1 := by
+  obtain ⟨hp, _, _, _⟩ := entryOK_facts t₁ x hx
+  obtain ⟨r, n⟩ := x
+  cases n with
+  | dir perm => simpa [zipEntryOf] using target_of_zipEntry dir r hp true
+  | file perm c => simpa [zipEntryOf] using target_of_zipEntry dir r hp false
+
 /-! ### non-vacuity -/
 
 /-- a nested name with an inner `..` is accepted and lands below the destination -/
@@ -127,5 +225,42 @@ example : untarTarget true (b "/w/dest") (b "/etc/passwd") = none := by decide
 example : unzipTarget true (b "rel/dest") (b "..") = none := by decide
 /-- `..a` and `...` are ordinary names -/
 example : unzipTarget true (b "/w/dest") (b "..a/...") = some ⟨true, [b "w", b "dest", b "..a", b "..."]⟩ := by decide
+
+
+/-- a tree with a nested directory, an empty directory, files of different modes -/
+private def exTree : Tree :=
+  [([], .dir 0o750), ([b "a"], .file 0o644 (b "hello")), ([b "sub"], .dir 0o711),
+   ([b "sub", b "x.sh"], .file 0o755 (b "#!")), ([b "sub", b "deep"], .dir 0o700),
+   ([b "sub", b "deep", b "..z"], .file 0o400 []), ([b "void"], .dir 0o777)]
+private def exFS : FS := [([b "w"], .dir 0o755), ([b "w", b "dest"], .dir 0o700), ([b "w", b "dest", b "stale"], .file 0o600 (b "x"))]
+
+example : treeOK exTree = true := by decide
+example : (zipDir exTree).map (·.name) =
+    [b "./", b "a", b "sub/", b "sub/x.sh", b "sub/deep/", b "sub/deep/..z", b "void/"] := by decide
+example : subtree (unzipDir true (b "/w/dest") true exFS (zipDir exTree)).1 [b "w", b "dest"] = exTree :=
+  (zip_roundtrip (b "/w/dest") exFS exTree (by decide)
+    (by
+      intro pre hp hne
+      have : pre = [] ∨ pre = [b "w"] := by
+        have h : (clean (b "/w/dest")).segs = [b "w", b "dest"] := by decide
+        rw [h] at hp hne
+        rcases List.prefix_cons_iff.mp hp with h1 | ⟨t1, rfl, h1⟩
+        · exact Or.inl h1
+        · rcases List.prefix_cons_iff.mp h1 with h2 | ⟨t2, rfl, h2⟩
+          · exact Or.inr (by rw [h2])
+          · have : t2 = [] := List.prefix_nil.mp h2
+            subst this; exact absurd rfl hne
+      rcases this with rfl | rfl <;> decide)
+    (by decide)).2
+/-- a hostile archive against a populated file system: the first entry is extracted,
+    the second refused, the sibling file keeps its content -/
+example : unzipDir true (b "/w/dest") false
+    [([b "w"], .dir 0o755), ([b "w", b "sib.txt"], .file 0o644 (b "mine"))]
+    [⟨b "ok/f", false, 0o600, b "1"⟩, ⟨b "ok/../../sib.txt", false, 0o666, b "evil"⟩, ⟨b "late", false, 0o600, []⟩] =
+    ([([b "w"], .dir 0o755), ([b "w", b "sib.txt"], .file 0o644 (b "mine")), ([b "w", b "dest"], .dir 0o700),
+      ([b "w", b "dest", b "ok"], .dir 0o700), ([b "w", b "dest", b "ok", b "f"], .file 0o600 (b "1"))],
+     some (1, .refused)) := by decide
+/-- a listing that is not in walk order (child before its directory) is not `treeOK` -/
+example : treeOK [([], .dir 0o755), ([b "d", b "f"], .file 0o644 []), ([b "d"], .dir 0o755)] = false := by decide
 
 end PubModel.C17
